@@ -18,13 +18,55 @@ EXPLANATION = (
 ASSUMPTIONS = []
 
 
+def mutators_of(f, local):
+    out, refs = [], set()
+    for s in f.stmts():
+        if s.rv == "ref" and s.j.get("mut") and s.place is not None and s.dst is not None and s.place.local == local:
+            refs.add(s.dst.local)
+    for t in f.calls():
+        for a in t.arg_places():
+            if a is not None and not a.proj and a.local in refs:
+                out.append(t)
+    return out
+
+
+def fmt_arg_root(f, local):
+    """format_args! passes `&(&a, &b)` and reads `.0`, `.1`: resolve a Display argument to the tuple element it names"""
+    cur = local
+    for _ in range(8):
+        ds = local_defs(f, cur)
+        if len(ds) != 1 or not hasattr(ds[0], "rv"):
+            return cur
+        d = ds[0]
+        pl = d.place if d.place is not None else (op_place(d.ops[0]) if d.ops else None)
+        if d.rv not in ("use", "ref", "copy_for_deref") or pl is None:
+            return cur
+        idx = [x for x in pl.proj if re.fullmatch(r"\.\d+", x)]
+        if idx:
+            agg = [x for x in local_defs(f, pl.local) if hasattr(x, "rv") and x.rv == "aggregate"]
+            if len(agg) == 1 and int(idx[0][1:]) < len(agg[0].ops) and op_place(agg[0].ops[int(idx[0][1:])]) is not None:
+                cur = op_place(agg[0].ops[int(idx[0][1:])]).local
+                continue
+            return cur
+        cur = pl.local
+    return cur
+
+
+def frag_field_direct(f, local):
+    for d in local_defs(f, local):
+        if hasattr(d, "rv") and d.place is not None and "selection_map" in d.place.fields() and \
+                "MergedInlineFragmentSelection" in f.local_ty(d.place.local):
+            return True
+    return False
+
+
 def run(cx):
     fb = cx.mir(*PRINTER_CRATES)
     q, qsw = mss_switch(fb, r"graphql_network_protocol::query_text::write_selections_for_query_text$")
     qa = sibling.attributes(fb, q, qsw, r"write_selections_for_query_text$")
     r = fb.one(r"artifact_content::raw_response_type::generate_raw_response_type_inner$")
     sws = [s for s in discr_switches(r) if (s["adt"] or "").endswith("MergedServerSelection")]
-    cx.floor("R27.raw-keys matches over MergedServerSelection in the raw response printer", len(sws), 2)
+    cx.floor("R27.raw-keys matches over MergedServerSelection in the raw response printer", len(sws), 1)
     # the printing match is the one whose ScalarField arm emits
     best = None
     for sw in sws:
@@ -86,3 +128,102 @@ def run(cx):
             cx.ob("R27.param-keys", f.id + "|keyed-by-name_or_alias", uses or not any(re.search(r"Selection", l["ty"]) for l in f.locals[1:f.argc + 1]),
                   "the parameter type's property name is not name_or_alias() of the selection (what the reader AST "
                   "uses as alias)", f.loc())
+    # every property-declaration template of the parameter / updatable types is keyed by name_or_alias()
+    import templates, os
+    T = templates.Templates(cx.syn(), os.environ.get("VERIF_REPO", "/repo"))
+    nkeys = 0
+    for m in T.macros_in(r"generate_updatable_and_parameter_type\.rs$"):
+        tpl = m.get("template") or ""
+        fn_name = m["in"].split("::")[-1]
+        if not fn_name.startswith("write_"):
+            continue
+        mm = re.search(r"(?:readonly |get |set |^)\{\}(?::|\()", tpl)
+        if not mm:
+            continue
+        idx = tpl[:mm.end()].count("{}") - 1 + len(re.findall(r"\{[a-z_]+\}", tpl[:mm.end()]))
+        phs = T.placeholders(m)[0]
+        anon = [p_ for p_ in phs if not p_[2]]
+        k = tpl[:mm.end()].count("{}") - 1
+        if k >= len(anon):
+            raise AnchorError("placeholder not located in %r" % tpl)
+        l, c = anon[k][0], anon[k][1]
+        owner = [g for g in fb.fns.values() if g.file == m["file"] and any(
+            t.j.get("fsp") and (t.j["fsp"][0], t.j["fsp"][1]) == (l, c) and term_calls(t, r"fmt::rt::Argument::<'_>::new_display$") for t in g.calls())]
+        if not owner:
+            raise AnchorError("no Display argument found for the key of %r at %s:%d" % (tpl, m["file"], l))
+        g = owner[0]
+        t = [t for t in g.calls() if t.j.get("fsp") and (t.j["fsp"][0], t.j["fsp"][1]) == (l, c) and term_calls(t, r"fmt::rt::Argument::<'_>::new_display$")][0]
+        a = op_place(t.args[0])
+        is_noa = lambda d: not hasattr(d, "rv") and re.search(r"::name_or_alias$", d.callee or "")
+        src = None
+        if a is not None:
+            l0 = fmt_arg_root(g, a.local)
+            src = local_flows_from(g, l0, is_noa, 12)
+            if src is None:
+                pr = samesrc.producer(g, l0)
+                if pr[0] == "param" and "SelectableNameOrAlias" in g.local_ty(pr[1]):
+                    callers = [(h_, t_) for h_ in fb.fns.values() for t_ in h_.calls() if t_.callee == g.id]
+                    if callers and all(op_place(t_.args[pr[1] - 1]) is not None and local_flows_from(
+                            h_, op_place(t_.args[pr[1] - 1]).local, is_noa, 12) is not None for h_, t_ in callers):
+                        src = callers[0][1]
+        nkeys += 1
+        cx.ob("R27.param-keys", "%s|template-L%s|key-is-name_or_alias" % (fn_name, tpl.strip()[:24].replace("\n", "")), src is not None,
+              "the property declared by %r is not named by name_or_alias() of the selection: the reader provides the value "
+              "under the alias (or name), so an aliased selection is typed under a key that does not exist at run time" % tpl,
+              "%s:%d" % (m["file"], m["span"][0]))
+    cx.floor("R27.param-keys property declaration templates", nkeys, 6)
+    # ---- R27.fragment-variants: selections next to inline fragments appear in every variant ------------------
+    part = None
+    for g in fb.with_closures(r):
+        for sw_ in discr_switches(g):
+            if (sw_["adt"] or "").endswith("MergedServerSelection") and not (g is r and sw_["bb"] == sw["bb"]) and "InlineFragment" in sw_["arms"]:
+                regs = sibling.arm_regions(g, sw_)
+                if regs.get("InlineFragment") != regs.get("ScalarField"):
+                    part = (g, sw_, regs)
+    rest_locals = set()
+    if part is not None:
+        g, sw_, regs = part
+        if g is r:
+            for b in regs.get("ScalarField", ()):
+                t = g.blocks[b].term
+                if t.op == "call" and re.search(r"::(insert|push|extend|push_back)$", t.callee or "") and t.args:
+                    a0 = op_place(t.args[0])
+                    if a0 is not None:
+                        for d in local_defs(g, a0.local):
+                            if hasattr(d, "rv") and d.rv == "ref" and d.place is not None:
+                                rest_locals.add(d.place.local)
+    rec = [t for t in r.calls() if t.callee == r.id]
+    frag_rec = []
+    for t in rec:
+        a = op_place(t.args[3])
+        if a is None:
+            continue
+        # does the map argument involve the selection_map of an inline fragment?
+        def frag_field(d):
+            return hasattr(d, "rv") and d.place is not None and "selection_map" in d.place.fields() and \
+                "MergedInlineFragmentSelection" in r.local_ty(d.place.local)
+        roots = [a.local]
+        for _ in range(6):
+            more = [d.place.local for d in local_defs(r, roots[-1]) if hasattr(d, "rv") and d.rv in ("ref", "use", "copy_for_deref") and d.place is not None]
+            if len(more) != 1 or more[0] in roots:
+                break
+            roots.append(more[0])
+        hit = None
+        for rt in roots:
+            if frag_field_direct(r, rt) or local_flows_from(r, rt, frag_field, 10) is not None or any(
+                    local_flows_from(r, op_place(x).local, frag_field, 10) is not None
+                    for m_ in mutators_of(r, rt) for x in m_.args[1:] if op_place(x) is not None):
+                hit = rt
+        if hit is not None:
+            frag_rec.append((t, roots))
+    cx.floor("R27.fragment-variants recursive calls printing an inline fragment variant", len(frag_rec), 1)
+    for i, (t, roots) in enumerate(frag_rec):
+        ok = bool(rest_locals) and any(
+            rt in rest_locals or local_flows_from(r, rt, lambda d: hasattr(d, "rv") is False and any(
+                pl is not None and any(dd.place is not None and dd.place.local in rest_locals for dd in local_defs(r, pl.local) if hasattr(dd, "rv"))
+                for pl in d.arg_places()), 8) is not None for rt in roots)
+        cx.ob("R27.fragment-variants", "%s|variant#%d-includes-sibling-selections" % (r.name, i), ok,
+              "the raw response type of an inline-fragment variant is printed from the fragment's own selections only: "
+              "fields selected on the abstract type next to the fragments (which the operation requests and the "
+              "normalization AST stores) are missing from every variant", r.loc(t.line))
+
